@@ -67,7 +67,8 @@ CHECKS = {
          "unit rule 'curve parameter must come from an x->t inversion' (known finding F7). Not decided: numeric agreement "
          "with the Bezier timing function.", "constant propagation through MIR + exact arithmetic relations", "5/C13"),
  "C14": ("other", "Exact end points for all scalar impls, affine-in-x polynomial identity, integer impls = checked conversion "
-         "of round of f32 lerp for exactly the nine types, glam impls component-wise with matching components. Not decided: "
+         "of round of f32 lerp for exactly the nine types, glam impls component-wise with matching components; besides the "
+         "formula only exact short-cuts (x == 0, x == 1, a == b) are accepted. Not decided: "
          "rounding behaviour and full-range no-panic of wide integers.", "value-graph rewriting + polynomial normal form", "5/C14"),
  "C20": ("other", "Panic audit: every checked-arithmetic assert, float division/remainder and range-panicking std call "
          "reachable from the public API of the four anchored files is enumerated from MIR and must be discharged on every "
@@ -90,11 +91,13 @@ CHECKS = {
          "the timeline! expansion and of the builder chain prescribed by the documented reading (implemented independently in "
          "witness/gen.py) are normalised into configuration records and compared (1 ulp tolerance on unit conversion); the "
          "parser's peek alternatives and suffix strings are read from its MIR and must all be known and exercised; unit table "
-         "constants; ill-formed sentences must be rejected with compiling twins. Not a proof over all sentences.",
+         "constants; ill-formed sentences must be rejected with compiling twins; every number the macro writes into an "
+         "expansion is 0.0, 1.0, literal*0.01, literal*unit(literal) or the parsed literal, one form per grammar alternative, "
+         "independent of the literal's size (decided for all literals). Not a proof over all sentences.",
          "translation validation of macro output by MIR value-graph comparison + grammar coverage from parser MIR", "5/C15"),
  "C16": ("translation_validation", "Same for animator!: initial state, initial values (Default + overrides, expression, omitted), "
          "`default` keyframes, A | B arms, merged arms, unmentioned states, compared as StateAnimatorBuilder chain records; "
-         "animator parser alternatives must be known and exercised.",
+         "animator parser alternatives must be known and exercised; the emitted-number rule of C15 for the arms' timelines.",
          "translation validation of macro output by MIR value-graph comparison", "5/C16"),
  "C17": ("translation_validation", "Structural validation of the code derive(Animate) generates for a family of struct shapes "
          "(1..6 fields, six numeric types + glam, attribute subsets, visibilities, remote proxies with reordered/extra fields): "
